@@ -450,18 +450,24 @@ func (e *Eng) codecFlush() {
 				if f := fieldNameOf(arg); f != "" {
 					// whole buffer: the counter must advance by len(<same field>) in this block, nothing stored to the field before the Write
 					counted := false
-					for _, p := range b.Instrs[:k] {
-						if bo, ok := p.(*ssa.BinOp); ok && bo.Op == token.ADD {
-							for _, op := range []ssa.Value{bo.X, bo.Y} {
-								if lc, ok := op.(*ssa.Call); ok {
-									if bi, ok := lc.Call.Value.(*ssa.Builtin); ok && bi.Name() == "len" && fieldNameOf(lc.Call.Args[0]) == f {
-										counted = true
-									}
-								}
+					// the length that is counted is taken before anything is stored to the buffer in this block; the
+					// addition itself may stand before or after the Write
+					goodLen := map[ssa.Value]bool{}
+					storedTo := false
+					for j, p := range b.Instrs {
+						if lc, ok := p.(*ssa.Call); ok && !storedTo {
+							if bi, ok := lc.Call.Value.(*ssa.Builtin); ok && bi.Name() == "len" && fieldNameOf(lc.Call.Args[0]) == f {
+								goodLen[lc] = true
 							}
 						}
+						if bo, ok := p.(*ssa.BinOp); ok && bo.Op == token.ADD && (goodLen[bo.X] || goodLen[bo.Y]) {
+							counted = true
+						}
 						if storeField(p) == f {
-							bad = append(bad, fmt.Sprintf("%s: %s is stored to before it is written out in the same block", e.pos(in), f))
+							storedTo = true
+							if j < k {
+								bad = append(bad, fmt.Sprintf("%s: %s is stored to before it is written out in the same block", e.pos(in), f))
+							}
 						}
 					}
 					if !counted {
@@ -475,7 +481,7 @@ func (e *Eng) codecFlush() {
 						bad = append(bad, fmt.Sprintf("%s: Write of a part of %s that is not the counted prefix [:n]", e.pos(in), f))
 					} else {
 						counted := false
-						for _, p := range b.Instrs[:k] {
+						for _, p := range b.Instrs {
 							if bo, ok := p.(*ssa.BinOp); ok && bo.Op == token.ADD && (bo.X == sl.High || bo.Y == sl.High) {
 								counted = true
 							}
